@@ -165,6 +165,13 @@ func (t *Target) ProcessAccessRules() error {
 	return nil
 }
 
+// denyAll replaces the access rules with an empty allow list
+// which denies every address. It is used when the configured
+// rules cannot be parsed so that a broken rule never widens access.
+func (t *Target) denyAll() {
+	t.accessRules = map[string][]interface{}{ipAllowTag: {}}
+}
+
 func (t *Target) parseAccessRule(allowDeny string) error {
 	var accessTag string
 	var temps []string
